@@ -7,8 +7,8 @@ CONSTANTS Comp = "hub_pro"
   Hosts <- H3
   InitAt <- At2_3
   MovePorts <- Mv2s
-  Dsts <- D_H3UB
-  Shapes <- Sh_al
+  Dsts <- D_1UB
+  Shapes <- Sh_a
   NBuf = 0
   Gaps <- G_none
   Strict = FALSE
